@@ -96,7 +96,9 @@ func (c *Ctx) pairCases(s, e ssa.Value, acc []Lit, pins pinMap, depth int) []pai
 
 func hasLit(ls []Lit, pred func(Lit) bool) bool {
 	for _, l := range ls {
-		if pred(l) {
+		ok := false
+		l.In(curP, func() { ok = pred(l) })
+		if ok {
 			return true
 		}
 	}
